@@ -4,6 +4,7 @@ import (
 	"go/token"
 	"go/types"
 	"regexp"
+	"strconv"
 	"strings"
 
 	"golang.org/x/tools/go/ssa"
@@ -64,6 +65,7 @@ func stripIface(v ssa.Value) ssa.Value {
 
 func c13(c *Ctx) {
 	c.sectionDispatch()
+	c.partStartsAtScanStart()
 	c.sectionWindow("R13.5")
 	P, R := c.P, c.R
 	c.singleIDHeader("R13.4")
@@ -658,4 +660,141 @@ func (c *Ctx) sectionDispatch() {
 		}
 	}
 	R.Min("R13.6", "section keyword cases", len(seenTypes), 4)
+}
+
+// partStartsAtScanStart (R13.7): the MIME splitter hands out a part's bytes from the position at which
+// the scan for that part started, and records that same position as the part's offset.
+func (c *Ctx) partStartsAtScanStart() {
+	P, R := c.P, c.R
+	R.Explain("R13.7", "part bytes start where the scan started: every non-nil slice returned by rfc822.(*ByteScanner).readToBoundary is a slice s.data[start:...] whose start is s.progress read once on entry — the read is outside every loop and no write of s.progress can precede it — because the function skips false delimiter matches by advancing s.progress inside its loop; and ScanAll stores, as Part.Offset, s.progress read immediately before the readToBoundary call whose first result it stores as Part.Data.  A later start loses the bytes before a skipped false match; a disagreeing offset makes the parser cut the part from the wrong place.")
+	f := c.fn("R13.7", "rfc822.(*ByteScanner).readToBoundary")
+	progress := c.fieldOf("rfc822", "ByteScanner", "progress")
+	data := c.fieldOf("rfc822", "ByteScanner", "data")
+	n := 0
+	if f != nil && progress != nil && data != nil {
+		var stores []ssa.Instruction
+		for _, b := range f.Blocks {
+			for _, in := range b.Instrs {
+				if st, ok := in.(*ssa.Store); ok && fieldAddrIs(st.Addr, progress) {
+					stores = append(stores, st)
+				}
+			}
+		}
+		var leafs func(v ssa.Value, seen map[ssa.Value]bool, out *[]ssa.Value)
+		leafs = func(v ssa.Value, seen map[ssa.Value]bool, out *[]ssa.Value) {
+			if seen[v] {
+				return
+			}
+			seen[v] = true
+			if phi, ok := v.(*ssa.Phi); ok {
+				for _, e := range phi.Edges {
+					leafs(e, seen, out)
+				}
+				return
+			}
+			*out = append(*out, v)
+		}
+		for _, ret := range engine.Returns(f) {
+			var vs []ssa.Value
+			leafs(engine.ResultOf(ret, 0), map[ssa.Value]bool{}, &vs)
+			for _, v := range vs {
+				if engine.IsNilConst(v) {
+					continue
+				}
+				n++
+				why := ""
+				sl, ok := v.(*ssa.Slice)
+				switch {
+				case !ok:
+					why = "the returned bytes are not a slice expression of s.data"
+				default:
+					x, okx := sl.X.(*ssa.UnOp)
+					if !okx || !fieldAddrIs(x.X, data) {
+						why = "the returned slice is not taken from s.data"
+						break
+					}
+					lo, okl := sl.Low.(*ssa.UnOp)
+					if sl.Low == nil || !okl || !fieldAddrIs(lo.X, progress) {
+						why = "the slice does not start at a read of s.progress"
+						break
+					}
+					if BlockInCycle(lo.Block()) {
+						why = "the start position is re-read inside the scanning loop (" + P.Pos(lo.Pos()) + "), after false matches were skipped"
+						break
+					}
+					for _, st := range stores {
+						if engine.InstrReaches(st, lo) {
+							why = "s.progress can be advanced (" + P.Pos(st.Pos()) + ") before the start position is read"
+						}
+					}
+				}
+				R.Check(why == "", "R13.7", c.name(f)+"|returned part starts at scan start|#"+strconv.Itoa(n), P.Pos(ret.Pos()), "s.data[entry progress : ...]", why)
+			}
+		}
+	}
+	R.Min("R13.7", "non-nil part returns of readToBoundary", n, 3)
+
+	g := c.fn("R13.7", "rfc822.(*ByteScanner).ScanAll")
+	offFld := c.fieldOf("rfc822", "Part", "Offset")
+	dataFld := c.fieldOf("rfc822", "Part", "Data")
+	m := 0
+	if g != nil && f != nil && offFld != nil && dataFld != nil {
+		for _, b := range g.Blocks {
+			for _, in := range b.Instrs {
+				st, ok := in.(*ssa.Store)
+				if !ok || !fieldAddrIs(st.Addr, offFld) {
+					continue
+				}
+				m++
+				why := ""
+				lo, okl := st.Val.(*ssa.UnOp)
+				if !okl || !fieldAddrIs(lo.X, progress) {
+					why = "Part.Offset is not a read of s.progress"
+				} else {
+					// the next call after the read must be readToBoundary, with no write of progress between
+					var next *ssa.Call
+					blk := lo.Block()
+					for _, in2 := range blk.Instrs[engine.InstrIndex(lo)+1:] {
+						if st2, ok := in2.(*ssa.Store); ok && fieldAddrIs(st2.Addr, progress) {
+							why = "s.progress is written between the offset read and the scan"
+							break
+						}
+						if call, ok := in2.(*ssa.Call); ok {
+							next = call
+							break
+						}
+					}
+					if why == "" && (next == nil || next.Call.StaticCallee() != f) {
+						why = "the offset is not read immediately before the readToBoundary call"
+					}
+					if why == "" {
+						// Part.Data stored in the same composite must be result 0 of that call
+						okData := false
+						for _, in3 := range st.Block().Instrs {
+							if st3, ok := in3.(*ssa.Store); ok && fieldAddrIs(st3.Addr, dataFld) {
+								if ex, ok := st3.Val.(*ssa.Extract); ok && ex.Index == 0 && ex.Tuple == ssa.Value(next) {
+									okData = true
+								}
+							}
+						}
+						if !okData {
+							why = "Part.Data is not the first result of the readToBoundary call that follows the offset read"
+						}
+					}
+				}
+				R.Check(why == "", "R13.7", c.name(g)+"|Part.Offset is the scan start", P.Pos(st.Pos()), "Offset = s.progress before readToBoundary; Data = its result", why)
+			}
+		}
+	}
+	R.Min("R13.7", "Part.Offset stores in ScanAll", m, 1)
+}
+
+// BlockInCycle reports whether b can reach itself.
+func BlockInCycle(b *ssa.BasicBlock) bool {
+	for _, s := range b.Succs {
+		if engine.BlocksReachableFrom(s)[b] {
+			return true
+		}
+	}
+	return false
 }
